@@ -118,12 +118,27 @@ func (t *Input) CoerceIn(v interface{}) (interface{}, error) {
 			ov := tv[k]
 			if ov == nil {
 				if f.Default != nil { // if not set then add the default value if not nil
+					// Use a copy. Sharing the default with the value would
+					// let a later coercion of the value modify the default
+					// in the schema. A default that is an input object or a
+					// list goes through the field type so that it gets the
+					// defaults of its own fields.
+					dv := dupValue(f.Default)
+					switch dv.(type) {
+					case map[string]interface{}, []interface{}:
+						if co, _ := f.Type.(InCoercer); co != nil {
+							var err error
+							if dv, err = co.CoerceIn(dv); err != nil {
+								return nil, inErr(err, k)
+							}
+						}
+					}
 					if rt != nil {
-						if err := t.reflectSetKey(rv, k, f.Default); err != nil {
+						if err := t.reflectSetKey(rv, k, dv); err != nil {
 							return nil, inErr(err, k)
 						}
 					} else {
-						tv[k] = f.Default
+						tv[k] = dv
 					}
 				} else if _, ok := f.Type.(*NonNull); ok {
 					return nil, fmt.Errorf("%s is required but missing", k)
